@@ -96,6 +96,10 @@ def check(ctx):
     check_zero_norm_guard(ctx)
     # neighbours and correlations of one bootstrap iteration are paired
     # by position: the two lists are filled in lock-step
+    # the leaves that compete below a parent come from as_leaves: its
+    # helpers key nodes by (level, label) (shared with C10)
+    from .C10 import check_node_identity
+    check_node_identity(ctx, ('taxonomy.',), floor=3)
     from ..rules.nodekeys import check_zip_alignment
     for fi_ in ctx.db.iter_functions():
         if fi_.module.short == 'type_assignment.election':
